@@ -253,6 +253,12 @@ pub fn run(ctx: &Ctx) -> i32 {
     });
     stats.merge(s2);
     viol.extend(v2);
+    crate::fuzzrun::golden("srv_sim", &mut stats, &mut viol);
+    if ctx.tier == vcommon::ev::Tier::Thorough {
+        std::env::set_var("VERIF_SRV_LANES", "1,2");
+        let seeds: Vec<Vec<u8>> = { let mut v = Vec::new(); for l in [1u8, 2] { for i in 0..24u8 { let mut s = vec![l as u8]; s.extend((0..(16 + i as usize * 9)).map(|k| (k as u8).wrapping_mul(37).wrapping_add(i.wrapping_mul(11)))); v.push(s); } } v };
+        crate::fuzzrun::campaign(ctx, "srv_sim", crate::fuzzrun::fuzz_secs(180), &seeds, &mut stats, &mut viol);
+    }
     Report::new(RULE)
         .assume("faults are injected by the scripted transports: EOF = 0-byte read, read / write errors = Error::SocketRead / SocketWrite from the k-th operation on")
         .assume("an oversized unterminated message is not part of this check (its refusal is covered by C17; here it would cost 100 MiB per case)")
@@ -261,6 +267,9 @@ pub fn run(ctx: &Ctx) -> i32 {
 }
 
 pub fn replay(_lane: &str, case: serde_json::Value) -> CaseResult {
+    if _lane == "fuzz" {
+        return crate::fuzzrun::replay(&case);
+    }
     let sc: Scenario = serde_json::from_value(case).map_err(|e| Fail::new("bad-replay", e.to_string()))?;
     println!("{}", serde_json::to_string_pretty(&sample_of(&sc)).unwrap());
     let trace = run_scenario(&sc);
